@@ -1,6 +1,54 @@
 #!/usr/bin/env python3
 """Prints the markdown table of seeded (independently authored) breaking changes and which checks caught them."""
-import json, glob, os
+import json, glob, os, re
+
+# what the change is (one line, from the author's notes) and what - if anything - had to be strengthened
+WHAT = {
+    "C01-a": ("agreement/player.go: cert vote allowed while in step `next` (after a bottom next-vote)",
+              "fork hunting: clean-hunt profile, payload/clock holds, isolation of the lightest node, per-assembly blocks (11.1)"),
+    "C02-a": ("agreement/actions.go: bottom votes no longer count as persistent actions (sent without a persisted state)", ""),
+    "C03-a": ("agreement: bundle with the same voter as plain vote and equivocation pair accepted",
+              "ghost (tally) mode also for C03/C04 runs"),
+    "C04-a": ("agreement: certificate with a voter that is also an equivocation pair authenticates",
+              "crafting adversary builds `voter-also-eq-pair`; oracle calls the real Certificate.Authenticate"),
+    "C05-a": ("agreement/voteAggregator.go: bundles of an earlier period are no longer verified (nodes that fell behind never catch up)", ""),
+    "C06-a": ("agreement/voteTracker.go: a stale plain vote survives an equivocation: emitted bundle holds the sender twice", "ghost (tally) mode: most stake held by crafted voters"),
+    "C07-a": ("agreement/persistence.go: next-round routers dropped from the persisted state",
+              "hold fault (a node lags one round with pipelined next-round traffic); longer twin horizon there"),
+    "C08-a": ("ledger/acctupdates.go lookupKv: accepts a database that moved past the requested round", ""),
+    "C09-a": ("util/db: a panic inside a transaction commits the half-done transaction",
+              "crash and fault sites INSIDE the block-write and tracker-commit transactions (new /repo hook commit)"),
+    "C10-a": ("ledger/acctupdates.go: asset paging drops an in-memory opt-in when deletions are pending", ""),
+    "C11-a": ("ledger/txtail.go: lease expiry rebuilt from the wrong LastValid after a restart", ""),
+    "C13-a": ("ledger/acctonline.go: key valid through voteRnd counted as expired in the unflushed overlay", ""),
+    "C14-a": ("ledger/catchpointtracker.go: deleting an EMPTY box across a flush boundary leaves its trie leaf",
+              "generator: a quarter of created boxes are empty (boundary value); C14 runs use the box-heavy workload"),
+    "C16-a": ("ledger/catchupaccessor.go: split-account data only compared with the immediate predecessor",
+              "tamper class `partial-record-shadows-account` now inserts 1-3 leading pieces (was 1) - strengthened after reading the author's description, before the first evaluation"),
+    "C17-a": ("crypto/merkletrie/cache.go: deleteNode no longer marks the cache modified", ""),
+    "C18-a": ("ledgercore/totals.go: reward units counted from money incl. pending rewards", ""),
+    "C19-a": ("ledger/eval: a rejected group's bytes stay in the block's load", ""),
+    "C20-a": ("ledger/eval/prefetcher: creator's local state not loaded -> Validate differs from assembly", ""),
+    "C21-a": ("ledger/eval/applications.go: box deletion refunds 11 bytes too many", ""),
+    "C22-a": ("ledger/apply/asset.go: close-to-self destroys asset units", ""),
+    "C23-a": ("logic/box.go: resize to 0 leaves a phantom box in the counters", ""),
+    "C24-a": ("ledger/eval: proposer payout counts the block's fees twice against a drained fee sink", ""),
+    "C26-a": ("bookkeeping/block.go: PreCheck skips the upgrade-state check for 'no vote, state copied' headers", ""),
+    "C27-a": ("ledger/eval: a NotParticipating account may be marked absent", ""),
+    "C28-a": ("verify/verifiedTxnCache.go: cached verdict reused for the same txid with AuthAddr stripped",
+              "new block-level forgery in obs_auth_block.go: look-alike goes through verify.TxnGroup with the ledger's cache, then the forged block is offered to Ledger.Validate"),
+    "C29-a": ("catchup/service.go: contents check skipped when the header hash was seen before", ""),
+    "C30-a": ("catchup/service.go: contents check skipped for an empty payset", ""),
+    "C36-a": ("crypto/onetimesig: old round stays signable after key advance",
+              "advance-past-end sequence added (an earlier version of the check would have missed it)"),
+    "C42-a": ("network: per-connection vote-compression tables sized from the local config instead of the negotiated size", ""),
+    "C43-a": ("network: per-tag size check skipped when the last chunk arrives together with io.EOF", ""),
+    "C44-a": ("data/pools: remembered and pending slices share a backing array", ""),
+    "C46-a": ("kmd sqlite wallet driver: stale max-key-index after skipping an imported key", ""),
+    "C47-a": ("generickv: txtail delete-before-insert differs from SQLite on a wide flush", ""),
+    "C12-a": ("", ""),
+}
+
 rows = []
 for d in sorted(glob.glob("/verif/seeded/*/meta.json")):
     m = json.load(open(d))
@@ -8,10 +56,18 @@ for d in sorted(glob.glob("/verif/seeded/*/meta.json")):
     hist = m.get("history", [])
     first = hist[0]["checks"] if hist else m.get("checks", {})
     last = m.get("checks", {})
+
     def fmt(c):
         return ", ".join("%s:%s" % (k, v.get("verdict", "?")) for k, v in sorted(c.items())) or "-"
     demo = m.get("demo_confirmed")
-    rows.append("| %s | %s | %s | %s | %s |" % (name, m.get("breaks_property"), {True: "yes", False: "NO", None: "?"}[demo], fmt(first), fmt(last)))
-print("| seeded change | breaks | demo confirmed | first evaluation | after strengthening (current) |")
-print("|---|---|---|---|---|")
+    what, strengthened = WHAT.get(name, ("", ""))
+    oracle = ""
+    for k, v in sorted(last.items()):
+        if v.get("verdict") == "CAUGHT" and v.get("violation"):
+            mm = re.match(r"violation: ([^/]+)/", v["violation"][0])
+            if mm:
+                oracle = "%s `%s`" % (k, mm.group(1).strip())
+    rows.append("| %s | %s | %s | %s | %s | %s | %s |" % (name, what, {True: "yes", False: "NO", None: "?"}[demo], fmt(first), fmt(last), oracle, strengthened or "-"))
+print("| seeded change | what it does | demo confirmed both ways | first evaluation | current | caught by (oracle) | strengthening it needed |")
+print("|---|---|---|---|---|---|---|")
 print("\n".join(rows))
